@@ -189,6 +189,19 @@ CHECKS["C19"] = (
     "DESIGN.md §3 C19",
 )
 
+CHECKS["C10"] = (
+    "exploration",
+    "reference-comparison monitor over generated instance pools (verdict computed from the harness's construction record, not from the instances) for ==, !=, symmetry, transitivity, deepcopy and re-construction, plus a bracket/quote-aware scan of every repr",
+    "Classes with 3-6 attributes in every drawn ordering of the kinds {int, str, list, nested spec, bound method of the instance, "
+    "function, class, module, Any} with random compare/repr flags (lazy or eager, spec subclass and plain subclass). For each class: a "
+    "base instance, every one-attribute variant (other value / missing) at every position, random instances; all pairs are compared "
+    "with the reference verdict, triples for transitivity, sub/superclass pairs for symmetry only; deepcopy(x) == x and "
+    "type(x)(**attrs) == x; repr of every instance incl. self references, cycles, empty and long values must not raise and must name "
+    "exactly the repr-enabled attributes in declaration order at depth 0.",
+    "Trusted: the reference verdict (bound methods equal iff same function).",
+    "DESIGN.md §3 C10",
+)
+
 NOT_YET = {}
 
 
